@@ -74,6 +74,10 @@ CLAIMED = {
          "Props/C07.v: C07_slice_box_cases, C07_side_finest, C07_left_patches, C07_right_patches, C07_footprint, C07_affine_exact, C07_constant_normal, C07_on_sample. Mandoline.slice(fformat='return') is run for all three normals at lattice positions (cell centres/faces of every level, eighths around box faces, domain faces and neighbourhood, random, default, outside), field lists incl. grid_level/all, limits, serial and controlled pool, on plotfiles with random / affine-along-normal / constant-along-normal payloads; returned arrays must equal bit for bit the numpy interpolation of the samples selected by an independent box-free oracle; the model's two canvases must equal those samples.",
          "positions restricted to the dx/8 lattice (float comparisons exact there); IEEE rounding of the interpolation evaluated by numpy, its algebra proved over Q; totality (every pixel defined) is checked by the correspondence (oracle has a sample at every pixel) but not proved; three defects repaired by fix: commits (half-cell margin, default position, grid_level at domain faces).",
          "DESIGN.md section 3 C07"),
+ 'C18': ("Coq proof (minuterie reads the header time for any field count; table layout shows every field once for odd and even counts; shown values are extrema of the per-box tables; listing complete and duplicate-free for any classifier; species list; row chunking lossless) + parsed-stdout correspondence of the entry points and pickle round trip",
+         "Props/C18.v: C18_time, C18_minmax_values, C18_rows (+ refutation of the pinned layout), C18_listing, C18_species, C18_rows_of. minuterie, menu (default, -m, -f) and marinate are run in-process on generated 2D/3D plotfiles (odd/even counts, with/without species, unknown names contained in one another or with regex metacharacters, negative/infinite/tiny times, infinite extrema); stdout is parsed back into names and (field, min, max) cells and compared with the generator's tables formatted by '{:.3}' and with the extracted model; the pickle is loaded, compared attribute by attribute and every box read through it.",
+         "text formatting and pickle are Python's (checked, not modelled); the regex classification is a parameter supplied by the harness' transcription of the database; field names equal to a class key of the database are excluded; five defects repaired by fix: commits.",
+         "DESIGN.md section 3 C18"),
 }
 PENDING_REASON = "check not built yet in this round (model and theorems planned in DESIGN.md section 3); not claimed until its check runs"
 
